@@ -2,22 +2,32 @@
 C16 — Future completion protocol: done / result / callback exactly once.
 
 Model   : lean/JRV/Model/Future.lean (line-granular LTS: registrars, one executor, observers)
-Theorems: lean/JRV/Properties/C16.lean (+ helper invariants in lean/JRV/Lemmas/Future.lean)
+Theorems: lean/JRV/Properties/C16.lean (+ helper invariants in lean/JRV/Lemmas/Future.lean); companions of the
+          extracted facts in lean/JRV/Properties/C16Gen.lean (built and audited separately by harness/core.py)
 Tie     : (a) facts extracted from the source (tools/extractors/future.py: lock discipline of set_callback and of
-          the `finally` of execute, statement order of EventData.set / raise_exception, containment in __notify)
-          re-proved against the model's step table; (b) lockstep: the REAL FutureResult is run under a
+          the `finally` of execute, statement order of EventData.set / raise_exception, containment in __notify,
+          the guard of __notify is `is not None` and not truthiness, the timeout of result() is forwarded
+          unchanged) re-proved against the model's step table; (b) lockstep: the REAL FutureResult is run under a
           deterministic line-granular scheduler (harness/futsched.py); every real step is translated, through a
-          label table built from the current source by AST shape, into model actions and the projections
-          (private fields, lock owner, event flag, invocation log, logger records, results of finished calls)
-          are compared after every step.
+          label table built from the current source by AST shape (and, for the calls of the registered callable
+          and of logger.exception, through a CALL hook that fires when the callee is really called, whatever the
+          layout of the source), into model actions and the projections (private fields, lock owner, event flag,
+          invocation log, logger records, results of finished calls) are compared after every step.
           Critical sections are compared at their boundaries: the three statements inside `with self.__lock`
           only touch attributes that (extracted fact) nobody reads outside the lock, so the harness feeds the
           model's critical-section steps when the real thread releases the lock and does not compare the three
           protected attributes while the real lock is held.  Reordering independent statements inside the
-          critical section, renaming locals or adding local statements therefore raises no alarm.
+          critical section, renaming locals, adding local statements, re-formatting a call or hoisting
+          `self._done_event` into a local therefore raise no alarm.
+Inputs  : task outcomes (an object(), None, 0, "", a fresh [], False; TaskError, exceptions with empty args / falsy
+          __bool__ / __len__ 0, an OSError), `extra` values (a per-registration tuple, None, 0, "", (), False),
+          callables (function, functools.partial, callable instance, instances with __bool__ False / __len__ 0,
+          with and without __name__; returning, raising, of wrong arity; set_callback(None), also as a
+          re-registration), observers done() / result(0.01) / result(0) / result(0.0) / result(None).
+          Every object is identified BY IDENTITY (futsched.Run.tok); the harness never asks for a truth value.
 Monitor : written from the property statement on what the real code did (callback invocations with their
-          arguments, logger records, done()/result() outcomes, execute()'s outcome), ordered by the spans of the
-          client calls.  Independent of the model.
+          arguments, logger records, done()/result() outcomes, execute()'s outcome, a result(timeout) call that
+          sits in an untimed wait), ordered by the spans of the client calls.  Independent of the model.
 """
 import hashlib
 import json
@@ -29,13 +39,20 @@ REQUIRED_THEOREMS = [
     "C16_wait_branches", "C16_result_consistent", "C16_result_same", "C16_result_before_completion",
     "C16_callback_once", "C16_callback_args", "C16_callback_in_force", "C16_callback_after_completion",
     "C16_callback_replaced_never", "C16_registration_sees_completion", "C16_contained", "C16_contained_progress",
-    "C16_cs_labels", "C16_gen_futLockDiscipline", "C16_gen_futNotifyOutsideLock", "C16_gen_eventStoreOrder",
-    "C16_gen_notifyContains", "C16_gen_executeShape", "C16_gen_waitGuard",
+    "C16_cs_labels", "C16_notify_guard",
+    # companions of the extracted facts: lean/JRV/Properties/C16Gen.lean (built and audited separately)
+    "C16_gen_futLockDiscipline", "C16_gen_futNotifyOutsideLock", "C16_gen_eventStoreOrder",
+    "C16_gen_notifyContains", "C16_gen_executeShape", "C16_gen_waitGuard", "C16_gen_notifyGuard",
+    "C16_gen_waitTimeoutForwarded",
 ]
 
 TIMED_WAIT = "timed-wait-raises-outcome"
 KINDS = ["r", "x", "a"]
 OUTCOMES = ["ret", "raise", "retnone"]
+FALSY_RET = ["ret0", "retempty", "retlist", "retfalse"]
+ODD_RAISE = ["raisenoargs", "raisefalsy", "raiselen", "raiseos"]
+FALSY_EXTRA = ["0", "s", "u", "F"]
+TIMED = set(fs.TIMED_CALLS)        # result(timeout) with a finite timeout: "t" 0.01, "z" 0, "Z" 0.0
 
 
 # --------------------------------------------------------------------------------------------
@@ -48,16 +65,23 @@ def monitor(run):
     prog = run.program
     outcome = prog.get("outcome")
     has_exec = outcome is not None
-    D = "7" if outcome == "ret" else "N"
-    X = "9" if outcome == "raise" else "N"
+    raises = outcome in fs.OUTCOMES_RAISE
+    # identities of the very objects the task returns / raises and of each registration's `extra`
+    D = run.tok(run.ret_obj)
+    X = run.tok(run.exc_obj)
     kinds, extras, thread_of = {}, {}, {}
-    for ti, (ids, calls) in enumerate(zip(run.reg_ids, prog.get("regs", []))):
-        for rid, (kind, xnone) in zip(ids, calls):
-            kinds[rid] = kind
-            extras[rid] = "N" if xnone else str(fs.EXTRA_BASE + rid)
+    for ti, ids in enumerate(run.reg_ids):
+        for rid in ids:
+            kinds[rid] = run.regs[rid][0]
+            extras[rid] = run.tok(run.extras.get(rid))
             thread_of[rid] = "R%d" % ti
     for e in run.errors:
         out.append(("harness-thread-error", e))
+    for (call, timeout, when, thread) in run.blocked:
+        # "result(timeout) raises OSError once the timeout elapses": a call that was given a finite timeout and
+        # sits in a wait WITHOUT timeout on the clear event can never do that (result(0) must not block at all)
+        out.append(("result-blocks-despite-timeout", "result(%r) by %s blocks in an untimed wait on the unfinished task: "
+                    "it can only return when the task finishes, never raise OSError" % (timeout, thread)))
     if run.deadlock:
         out.append(("never-returns", "some call never returns: %s" % [
             (t.name, t.state[:2]) for t in run.ctrl.threads if not t.finished]))
@@ -83,8 +107,13 @@ def monitor(run):
         n_log[rid] = n_log.get(rid, 0) + 1
         if rid is None or kinds.get(rid) not in ("x", "a"):
             out.append(("unexpected-log", "logger.exception called for %r (%s)" % (rid, cls)))
+    n_att = {}
+    for (rid, call, when, thread) in run.attempted:
+        n_att[rid] = n_att.get(rid, 0) + 1
     for rid, kind in kinds.items():
-        n = n_log.get(rid, 0) if kind == "a" else n_inv.get(rid, 0)   # a wrong-arity callable is seen via the log
+        # a wrong-arity callable has no body that could run: it is seen through the attempted calls (CALL hook)
+        # and through the log of the TypeError
+        n = max(n_att.get(rid, 0), n_log.get(rid, 0)) if kind == "a" else n_inv.get(rid, 0)
         if n > 1:
             out.append(("callback-twice", "registration %d (%s) invoked %d times" % (rid, kind, n)))
         if kind == "x" and n_log.get(rid, 0) != n_inv.get(rid, 0):
@@ -121,7 +150,8 @@ def monitor(run):
                         "registration %d (%s, %s) invoked %d times, expected exactly once"
                         % (rid, kind, "after completion" if after else "in force at completion", n)))
         if n == 1:
-            rec = [c for c in run.calls if c[0] == rid] if kind != "a" else [c for c in run.logged if c[0] == rid]
+            rec = [c for c in run.calls if c[0] == rid] if kind != "a" else \
+                ([c for c in run.attempted if c[0] == rid] or [c for c in run.logged if c[0] == rid])
             when, thread = rec[0][-2], rec[0][-1]
             if after and not (thread == thread_of[rid] and start < when <= end):
                 out.append(("callback-not-immediate", "registration %d made after completion was invoked by %s outside its set_callback call"
@@ -158,10 +188,10 @@ def monitor(run):
             elif before_task:
                 out.append(("result-early", "result() -> %s before the task finished" % res))
             elif res.startswith("v"):
-                if outcome == "raise" or res[1:] != D:
+                if raises or res[1:] != D:
                     out.append(("result-wrong-value", "result() returned %s, task outcome is (%s, %s)" % (res[1:], D, X)))
             elif res.startswith("e"):
-                if outcome != "raise" or res[1:] != X:
+                if not raises or res[1:] != X:
                     out.append(("result-wrong-exception", "result() raised %s, task outcome is (%s, %s)" % (res, D, X)))
             else:
                 out.append(("result-raised-other", "result() raised %s" % res))
@@ -176,7 +206,7 @@ def monitor(run):
             out.append(("execute-outcome", "execute() %s, the task %s" % (
                 "returned normally" if info.get("raised") == "N" else "raised " + str(info.get("raised")),
                 "returned" if X == "N" else "raised its exception")))
-        want = (True, ("e" + X) if outcome == "raise" else ("v" + D))
+        want = (True, ("e" + X) if raises else ("v" + D))
         if run.final != want:
             out.append(("stored-outcome", "after the run done()/result() = %r, expected %r" % (run.final, want)))
     else:
@@ -213,7 +243,8 @@ def translate(run):
             if ent[0] == "R":
                 acts.append("R%d=%s,%s" % (ent[1], ent[2], ent[3]))
             elif ent[0] == "O":
-                acts.append("O%d=%s" % (ent[1], ent[2]))
+                # the model has one timed kind: a zero timeout is a timeout (`obsTimeout` enabled while the flag is clear)
+                acts.append("O%d=%s" % (ent[1], "t" if ent[2] in TIMED else ent[2]))
         if st.void:
             continue
         call = st.call or "?"
@@ -255,8 +286,8 @@ def translate(run):
             acts.append(step_tok)
             check("sEvt" if sorted(body) == ["sData", "sExc"] else "sEvt(stores before it: %s)" % ",".join(body))
         elif label == "call" and role == "E":
-            o = prog["outcome"]
-            acts.append("E=e%d" % fs.EXC_OBJ if o == "raise" else ("E=v%d" % fs.RET_OBJ if o == "ret" else "E=vN"))
+            # identity of the very object the task returns / raises (None, a singleton such as 0, or the per-run object)
+            acts.append("E=e" + run.tok(run.exc_obj) if run.exc_obj is not None else "E=v" + run.tok(run.ret_obj))
             check("enter")
         elif label == "wait" or label == "parked:event":
             if "wait:F" in st.events:
@@ -327,55 +358,85 @@ def prog(outcome, regs, obs=()):
     return {"outcome": outcome, "regs": [list(map(tuple, r)) for r in regs], "obs": [list(o) for o in obs]}
 
 
+N_SMALL = 16   # the first N_SMALL exhaustive programs: one registrar against one executor (127 schedules each)
+
+
 def exhaustive_programs(thorough):
     """One registrar against one executor (and one observer): every interleaving."""
     ps = []
     for o in ["ret", "raise"]:
         for k in KINDS:
-            ps.append(prog(o, [[(k, False)]]))
-    ps.append(prog("retnone", [[("r", True)]]))
-    ps.append(prog("ret", [[("n", False)]]))
+            ps.append(prog(o, [[(k, "t", "f")]]))
+    ps.append(prog("retnone", [[("r", "N", "f")]]))
+    ps.append(prog("ret", [[("n", "t", "f")]]))                      # set_callback(None)
+    # falsy-but-not-None results / extras / exceptions, falsy and nameless callables
+    ps.append(prog("ret0", [[("r", "0", "b")]]))                     # 0, extra 0, __bool__ False instance
+    ps.append(prog("retlist", [[("x", "u", "l")]]))                  # a fresh [], extra (), __len__ 0 instance raising
+    ps.append(prog("retfalse", [[("a", "F", "p")]]))                 # False, extra False, partial of wrong arity
+    ps.append(prog("retempty", [[("r", "s", "L")]]))                 # "", extra "", __len__ 0 instance with __name__
+    ps.append(prog("raisefalsy", [[("x", "t", "i")]]))               # exception with __bool__ False, nameless instance raising
+    ps.append(prog("raisenoargs", [[("a", "N", "B")]]))              # exception with args == (), falsy instance of wrong arity
+    ps.append(prog("raiselen", [[("r", "0", "p")]]))                 # exception with __len__ 0, partial
+    ps.append(prog("raiseos", [[("x", "F", "f")]]))                  # the task itself raises an OSError
+    assert len(ps) == N_SMALL
     for o in ["ret", "raise"]:
         for call in ["d", "t", "b"]:
             ps.append(prog(o, [], [[call]]))
         ps.append(prog(o, [], [["t", "d"]]))
         ps.append(prog(o, [], [["d", "t"]]))
-    ps.append(prog(None, [[("r", False)]], [["d", "t"]]))
+    # result(0) / result(0.0): never blocks; OSError before completion, the value at once after it
+    ps.append(prog("ret0", [], [["z"]]))
+    ps.append(prog("raisefalsy", [], [["Z"]]))
+    ps.append(prog("retlist", [], [["z", "d"]]))
+    ps.append(prog("retfalse", [], [["d", "Z"]]))
+    ps.append(prog(None, [[("r", "t", "f")]], [["d", "t"]]))
+    ps.append(prog(None, [], [["z", "Z"]]))
     if thorough:
         for o in ["ret", "raise"]:
             ps.append(prog(o, [], [["t", "d", "t"]]))
             ps.append(prog(o, [], [["d", "b", "d"]]))
             for k in KINDS:
                 for call in ["d", "t", "b"]:
-                    ps.append(prog(o, [[(k, False)]], [[call]]))
-        ps.append(prog("ret", [[("r", False), ("x", False)]]))        # re-registration by the same client
-        ps.append(prog("raise", [[("x", True), ("r", False)]]))
+                    ps.append(prog(o, [[(k, "t", "f")]], [[call]]))
+        for o, k, x, f, call in [("retfalse", "r", "F", "l", "z"), ("retempty", "x", "s", "B", "Z"),
+                                 ("raiselen", "a", "u", "i", "z"), ("raiseos", "r", "0", "b", "t")]:
+            ps.append(prog(o, [[(k, x, f)]], [[call]]))
+        ps.append(prog("ret", [[("r", "t", "f"), ("x", "t", "f")]]))        # re-registration by the same client
+        ps.append(prog("raise", [[("x", "N", "f"), ("r", "t", "f")]]))
+        ps.append(prog("ret0", [[("r", "t", "b"), ("n", "N", "f")]]))       # re-registration with None
     return ps
 
 
 def bounded_programs(thorough):
     """Re-registration, two or three registrars / observers: every schedule with at most two preemptions."""
     ps = [
-        prog("ret", [[("r", False), ("x", False)]]),
-        prog("raise", [[("x", True), ("r", False)]]),
+        prog("ret", [[("r", "t", "f"), ("x", "t", "f")]]),
+        prog("raise", [[("x", "N", "f"), ("r", "t", "f")]]),
+        prog("ret0", [[("r", "0", "L"), ("n", "N", "f")]]),          # a real registration replaced by None
+        prog("raisenoargs", [[("n", "t", "f"), ("a", "s", "i")]]),   # None, then a real (nameless, wrong-arity) one
         prog("raise", [], [["t", "d", "t"]]),
         prog("ret", [], [["d", "b", "d"]]),
-        prog("ret", [[("r", False)]], [["d"]]),
-        prog("raise", [[("x", False)]], [["t"]]),
-        prog("ret", [[("a", False)]], [["b"]]),
-        prog("ret", [[("r", False)], [("r", False)]]),
-        prog("raise", [[("r", False)], [("x", True)]]),
-        prog("ret", [[("r", False), ("r", False)], [("a", False)]]),
+        prog("ret", [[("r", "t", "f")]], [["d"]]),
+        prog("raise", [[("x", "t", "f")]], [["t"]]),
+        prog("ret", [[("a", "t", "f")]], [["b"]]),
+        prog("retfalse", [[("x", "F", "b")]], [["z"]]),
+        prog("ret", [[("r", "t", "f")], [("r", "t", "f")]]),
+        prog("raise", [[("r", "t", "f")], [("x", "N", "f")]]),
+        prog("retlist", [[("r", "0", "p")], [("x", "0", "l")]]),     # the same falsy extra object in two registrations
+        prog("ret", [[("r", "t", "f"), ("r", "t", "f")], [("a", "t", "f")]]),
         prog("ret", [], [["t"], ["d", "b"]]),
+        prog("raiseos", [], [["Z"], ["d", "z"]]),
     ]
     if thorough:
         ps += [
-            prog("ret", [[("x", False)], [("a", False)]]),
-            prog("raise", [[("r", False)], [("r", False)]], [["t", "d"]]),
-            prog("ret", [[("r", False)], [("x", False)], [("a", False)]]),
-            prog("raise", [[("a", False), ("r", False)], [("n", False)]], [["b"]]),
-            prog("ret", [[("r", False)], [("n", False)], [("r", True)]], [["d"]]),
-            prog("raise", [[("x", False)]], [["t"], ["d"], ["b"]]),
+            prog("ret", [[("x", "t", "f")], [("a", "t", "f")]]),
+            prog("raise", [[("r", "t", "f")], [("r", "t", "f")]], [["t", "d"]]),
+            prog("ret", [[("r", "t", "f")], [("x", "t", "f")], [("a", "t", "f")]]),
+            prog("raise", [[("a", "t", "f"), ("r", "t", "f")], [("n", "t", "f")]], [["b"]]),
+            prog("ret", [[("r", "t", "f")], [("n", "t", "f")], [("r", "N", "f")]], [["d"]]),
+            prog("raise", [[("x", "t", "f")]], [["t"], ["d"], ["b"]]),
+            prog("retempty", [[("a", "u", "L")], [("x", "F", "p")], [("n", "0", "f")]], [["z"]]),
+            prog("raisefalsy", [[("r", "s", "b"), ("n", "N", "f"), ("x", "0", "i")]], [["Z", "d"]]),
         ]
     return ps
 
@@ -383,11 +444,18 @@ def bounded_programs(thorough):
 def random_program(rng):
     regs = []
     for _ in range(rng.randint(1, 4)):
-        regs.append([(rng.choice(["r", "r", "x", "a", "n"]), rng.random() < 0.2) for _ in range(rng.choice([1, 1, 2, 3]))])
+        calls = []
+        for _ in range(rng.choice([1, 1, 2, 3])):
+            kind = rng.choice(["r", "r", "x", "a", "n"])
+            u = rng.random()
+            extra = "t" if u < 0.5 else ("N" if u < 0.65 else rng.choice(FALSY_EXTRA))
+            form = "f" if rng.random() < 0.35 else rng.choice(fs.FORMS[1:])
+            calls.append((kind, extra, form))
+        regs.append(calls)
     obs = []
     for _ in range(rng.randint(0, 3)):
-        obs.append([rng.choice(["d", "t", "t", "b"]) for _ in range(rng.choice([1, 2, 3]))])
-    outcome = rng.choice(OUTCOMES + ["ret", "raise"])
+        obs.append([rng.choice(["d", "t", "t", "b", "z", "Z"]) for _ in range(rng.choice([1, 2, 3]))])
+    outcome = rng.choice(OUTCOMES + ["ret", "raise"] + FALSY_RET + ODD_RAISE)
     if rng.random() < 0.06:
         outcome = None
         obs = [[c if c != "b" else "t" for c in o] for o in obs]
@@ -427,6 +495,17 @@ class Collector(object):
                   nontrivial_key=hashlib.md5(repr(labels).encode()).hexdigest(), kind=kind)
         ctx.hist["outcome:%s" % run.program.get("outcome")] += 1
         ctx.hist["steps"] += len(run.steps)
+        for rid, (k_, x_, f_) in run.regs.items():
+            ctx.hist["registration:kind=%s" % k_] += 1
+            if k_ != "n":
+                ctx.hist["registration:callable=%s" % f_] += 1
+            ctx.hist["registration:extra=%s" % x_] += 1
+        for (rid_, _c, _w, _t) in run.attempted:
+            f_ = run.regs[rid_][2]
+            if f_ in fs.FALSY_FORMS:
+                ctx.hist["invoked:falsy-callable"] += 1
+            if f_ in fs.NAMELESS_FORMS:
+                ctx.hist["invoked:callable-without-__name__"] += 1
         for (_rid, _d, _x, _xt, call, _w, _t) in run.calls:
             ctx.hist["invoked-by:%s" % ("executor" if call == "E" else "registrar")] += 1
         for o in run.observations:
@@ -458,6 +537,24 @@ class Collector(object):
         self.lines, self.pending = [], []
 
 
+LEGEND = {
+    "identities": {"N": "None", "7": "the per-run object the task returned (object() or a fresh [])",
+                   "9": "the exception object the task raised", "50": "0", "51": "''", "52": "()", "53": "False",
+                   "100+r": "the per-registration tuple ('extra', r) of registration r"},
+    "outcome": {"ret": "returns object()", "retnone": "returns None", "ret0": "returns 0", "retempty": "returns ''",
+                "retlist": "returns a fresh []", "retfalse": "returns False", "raise": "raises TaskError('task failed')",
+                "raisenoargs": "raises an Exception subclass with args == ()",
+                "raisefalsy": "raises an Exception subclass whose __bool__ is False",
+                "raiselen": "raises an Exception subclass whose __len__ is 0", "raiseos": "raises OSError(...)",
+                "None": "no execute() at all"},
+    "registration": "(kind, extra, callable): kind r returns / x raises / a wrong arity / n set_callback(None); "
+                    "extra t ('extra', r) / N None / 0 / s '' / u () / F False; callable f function / p functools.partial / "
+                    "i callable instance / b instance with __bool__ False / l instance with __len__ 0 "
+                    "(p i b l have no __name__; B L are b l with a __name__ attribute)",
+    "observer": "d done() / t result(0.01) / z result(0) / Z result(0.0) / b result(None)",
+}
+
+
 def report_violation(ctx, col, which=None):
     run, hits = which or col.violation
     key = hits[0][0]
@@ -474,14 +571,140 @@ def report_violation(ctx, col, which=None):
         "invocations": [list(c) for c in small.calls],
         "logged": [list(c) for c in small.logged],
         "observations": [list(o) for o in small.observations],
+        "attempted_calls": [list(c) for c in small.attempted],
+        "blocked_untimed": [list(c) for c in small.blocked],
         "execute": small.exec_info,
+        "legend": LEGEND,
         "repo": fs.impl.REPO,
     }
     for k, d in hits[:6]:
         ctx.violate(case, d, k)
 
 
+def probe_unmodelled(ctx):
+    """
+    Behaviours in the property's scope that the model does not describe (see `ctx.assumptions`): executed once,
+    sequentially, on the real code, and RECORDED in the evidence (`unmodelled_behaviours_observed`).  No monitor, no
+    model, never an alarm: this only documents what the code does there.
+    """
+    seen = {}
+
+    def attempt(name, fn):
+        # in a daemon thread with a deadline: on a changed tree a probe may block (e.g. an untimed wait)
+        import threading
+
+        def body():
+            try:
+                seen[name] = fn()
+            except BaseException as ex:  # noqa: BLE001  a probe must never take the check down
+                seen[name] = "probe failed: %s" % type(ex).__name__
+        th = threading.Thread(target=body, name="c16-probe")
+        th.daemon = True
+        th.start()
+        th.join(2.0)
+        if th.is_alive():
+            seen[name] = "probe did not return within 2 s"
+
+    def base_exception_task():
+        got = []
+        f = fs.tp.FutureResult(fs.RecLogger(_NullRun()))
+        f.set_callback(lambda r, e, x: got.append((r, type(e).__name__ if e is not None else None, x)), "extra")
+
+        def task():
+            raise SystemExit(3)
+        try:
+            f.execute(task, None, None)
+            raised = None
+        except BaseException as ex:  # noqa: BLE001
+            raised = type(ex).__name__
+        try:
+            f.result(0)
+            res = "returned"
+        except OSError:
+            res = "OSError"
+        return {"execute_raised": raised, "done": bool(f.done()), "result(0)": res, "callback_got": got}
+
+    def execute_twice():
+        got = []
+        f = fs.tp.FutureResult(fs.RecLogger(_NullRun()))
+        f.set_callback(lambda r, e, x: got.append(r), None)
+        f.execute(lambda: "first", None, None)
+        f.execute(lambda: "second", None, None)
+        return {"callback_invocations": got, "result": f.result(0)}
+
+    def reregister_inside_callback():
+        got = []
+        f = fs.tp.FutureResult(fs.RecLogger(_NullRun()))
+
+        def second(r, e, x):
+            got.append(("second", x))
+
+        def first(r, e, x):
+            got.append(("first", x))
+            f.set_callback(second, "x2")
+        f.set_callback(first, "x1")
+        f.execute(lambda: 1, None, None)
+        return {"invocations": got}
+    attempt("task raises SystemExit (BaseException)", base_exception_task)
+    attempt("execute() called twice on one future", execute_twice)
+    attempt("callback re-registers from inside the callback", reregister_inside_callback)
+    ctx.extra["unmodelled_behaviours_observed"] = dict(seen)
+
+
+class _NullRun(object):
+    def on_logged(self, ex):
+        pass
+
+
+def add_assumptions(ctx):
+    ctx.assumptions.append(
+        "C16: CPython executes one source line of the traced methods atomically with respect to the scheduler "
+        "(sys.settrace line events are the finest interleaving considered; the calls of the registered callable and "
+        "of logger.exception are scheduling points through a sys.monitoring CALL hook); threading.Lock / "
+        "threading.Event are replaced by cooperative shims during exploration (mutual exclusion, flag, wait) — their "
+        "CPython implementations are modelled, not verified; a timed wait (zero timeout included) may give up at any "
+        "scheduling point at which the event is clear")
+    ctx.assumptions.append(
+        "C16: tasks raise Exception subclasses only.  NOT modelled, not monitored (recorded once per run under "
+        "coverage.unmodelled_behaviours_observed): a task raising a bare BaseException (SystemExit, KeyboardInterrupt) — "
+        "`execute`'s `except Exception` does not store it, the future is never done, result() keeps timing out and the "
+        "callback is invoked with (None, None, extra); `execute` called twice on one future (the callback in force is "
+        "invoked once per execute, the stored outcome is overwritten); a callback that calls set_callback on the same "
+        "future from inside the callback (the new registration is made after completion and is invoked at once, "
+        "recursively).  Callbacks raise Exception subclasses only (a BaseException from a callback is not contained)")
+    ctx.assumptions.append(
+        "C16: objects are compared by identity; the generated results / extras / exceptions / callables include "
+        "falsy-but-not-None ones (0, '', [], False, (), exceptions with empty args or falsy __bool__/__len__, callable "
+        "instances with __bool__ False or __len__ 0, callables without __name__: functools.partial, instances) but not "
+        "objects whose __eq__/__bool__/__len__ raise or have side effects")
+
+
+class Pinned(object):
+    """Runs exploration on one core (see futsched.single_cpu); re-chosen for every program / batch."""
+
+    def __init__(self):
+        self.cm = None
+
+    def again(self):
+        self.close()
+        self.cm = fs.single_cpu()
+        self.cm.__enter__()
+
+    def close(self):
+        if self.cm is not None:
+            self.cm.__exit__(None, None, None)
+            self.cm = None
+
+
 def run(ctx):
+    pin = Pinned()
+    try:
+        _run(ctx, pin)
+    finally:
+        pin.close()
+
+
+def _run(ctx, pin):
     col = Collector(ctx)
     thorough = ctx.thorough
     ctx.rule = ("distinct sequence of (client call, executed source-line label) over the whole schedule; "
@@ -493,7 +716,8 @@ def run(ctx):
     import time
     t0 = time.time()
     # exploration is budgeted by counts (deterministic for a seed); the wall-clock limits only guard a loaded machine
-    t_exh, t_bnd, t_rnd = (25, 20, 15) if not thorough else (300, 120, 100)   # safety nets; the budgets below are counts
+    # and the escalated budgets of a changed source (a quick run stays under a minute)
+    t_exh, t_bnd, t_rnd = (300, 120, 100) if thorough else ((14, 12, 8) if ctx.escalated else (20, 16, 10))
 
     def timed(kind, deadline):
         def f(r):
@@ -505,74 +729,95 @@ def run(ctx):
     for k, p in enumerate(progs):
         # the one-registrar-one-executor programs come first and are small (127 schedules each)
         deadline = t0 + t_exh
+        pin.again()
         n, done = fs.explore(p, timed("exhaustive", deadline), None, ctx.budget(1200, 3000), col.table, col.codes)
         done = done and time.time() <= deadline
         all_exhausted = all_exhausted and done
-        if k < 8:
+        if k < N_SMALL:
             small_exhausted = small_exhausted and done
         ctx.hist["exhaustive-program-%s" % ("exhausted" if done else "truncated")] += 1
         if col.violation or time.time() > deadline:
             break
+    phases = ctx.extra.setdefault("phase_seconds", {})
+    phases["exhaustive"] = round(time.time() - t0, 1)
     ctx.extra["exhaustive_one_registrar_one_executor"] = small_exhausted
     ctx.extra["exhaustive_all_listed_programs"] = all_exhausted and not col.violation
+    t1 = time.time()
     if not col.violation:
         deadline = time.time() + t_bnd
         for p in bounded_programs(thorough):
-            n, done = fs.explore(p, timed("preemptions<=2", deadline), 2, ctx.budget(350, 2500), col.table, col.codes)
+            pin.again()
+            n, done = fs.explore(p, timed("preemptions<=2", deadline), 2, ctx.budget(250, 2500), col.table, col.codes)
             ctx.hist["bounded-exhausted" if done and time.time() <= deadline else "bounded-truncated"] += 1
             if col.violation or time.time() > deadline:
                 break
+    phases["bounded"] = round(time.time() - t1, 1)
+    t1 = time.time()
     if not col.violation:
         rng = ctx.derive_rng("random")
         deadline = time.time() + t_rnd
         for i in range(ctx.budget(300, 6000)):
+            if i % 150 == 0:
+                pin.again()
             p = random_program(rng)
             r = fs.Run(p, col.table, col.codes).execute(fs.random_chooser(rng, rng.choice([0.3, 0.6, 0.85])))
-            if col.on_run(r, "random") or (thorough and time.time() > deadline):
+            if col.on_run(r, "random") or time.time() > deadline:
                 break
+    phases["random"] = round(time.time() - t1, 1)
+    pin.close()
+    t1 = time.time()
     ctx.exhaustive = False
     col.flush()
+    phases["model"] = round(time.time() - t1, 1)
     if col.violation:
+        pin.again()
         report_violation(ctx, col)
-    ctx.assumptions.append(
-        "C16: CPython executes one source line of the traced methods atomically with respect to the scheduler "
-        "(sys.settrace line events are the finest interleaving considered); threading.Lock / threading.Event are "
-        "replaced by cooperative shims during exploration (mutual exclusion, flag, wait) — their CPython "
-        "implementations are modelled, not verified; a timed wait may give up at any scheduling point at which "
-        "the event is clear")
-    ctx.assumptions.append(
-        "C16: tasks raise Exception subclasses only (a task raising a bare BaseException leaves the future "
-        "not done and is outside the property's domain); callbacks raise Exception subclasses only")
+        pin.close()
+    probe_unmodelled(ctx)
+    add_assumptions(ctx)
 
 
 def search(ctx):
-    """The tie is broken (obligation or lockstep): look harder for a failing input on the real code (no model)."""
+    """The tie is broken (obligation or lockstep): look harder for a failing input on the real code (no model).
+    Bounded: at most ~75 s in all (the long look is `--tier thorough`)."""
     import time
     col = Collector(ctx, model=False)
-    deadline = time.time() + 150
+    pin = Pinned()
+    t0 = time.time()
+    d_exh, d_bnd, d_rnd = t0 + 30, t0 + 55, t0 + 75
 
-    def on(kind):
+    def on(kind, deadline):
         def f(r):
             return col.on_run(r, kind) or time.time() > deadline
         return f
-    for p in exhaustive_programs(True):
-        fs.explore(p, on("search-exhaustive"), None, 20000, col.table, col.codes)
-        if col.violation or time.time() > deadline:
-            break
-    if not col.violation:
-        for p in bounded_programs(True):
-            fs.explore(p, on("search-bounded"), 3, 4000, col.table, col.codes)
-            if col.violation or time.time() > deadline:
+    try:
+        for p in exhaustive_programs(True):
+            pin.again()
+            fs.explore(p, on("search-exhaustive", d_exh), None, 6000, col.table, col.codes)
+            if col.violation or time.time() > d_exh:
                 break
-    if not col.violation:
-        rng = ctx.derive_rng("search")
-        while time.time() < deadline + 30:
-            p = random_program(rng)
-            r = fs.Run(p, col.table, col.codes).execute(fs.random_chooser(rng, rng.choice([0.3, 0.6, 0.85])))
-            if col.on_run(r, "search-random"):
-                break
-    if col.violation:
-        report_violation(ctx, col)
+        if not col.violation:
+            for p in bounded_programs(True):
+                pin.again()
+                fs.explore(p, on("search-bounded", d_bnd), 3, 2500, col.table, col.codes)
+                if col.violation or time.time() > d_bnd:
+                    break
+        if not col.violation:
+            rng = ctx.derive_rng("search")
+            i = 0
+            while time.time() < d_rnd:
+                if i % 150 == 0:
+                    pin.again()
+                i += 1
+                p = random_program(rng)
+                r = fs.Run(p, col.table, col.codes).execute(fs.random_chooser(rng, rng.choice([0.3, 0.6, 0.85])))
+                if col.on_run(r, "search-random"):
+                    break
+        if col.violation:
+            pin.again()
+            report_violation(ctx, col)
+    finally:
+        pin.close()
 
 
 def replay(payload):
@@ -587,7 +832,10 @@ def replay(payload):
     print("schedule: %s" % " ".join(r.choices))
     for i, s in enumerate(r.steps):
         print("  %3d %-3s %-14s line %-4s %s" % (i, s.call, s.label, s.line, ",".join(s.events)))
+    print("legend  : %s" % json.dumps(LEGEND, indent=1))
     print("invocations (registration, result, exception, extra, during call, step): %s" % [c[:6] for c in r.calls])
+    print("calls attempted by the traced code (registration, during call, step): %s" % [c[:3] for c in r.attempted])
+    print("untimed waits despite a finite timeout (call, timeout, step): %s" % [c[:3] for c in r.blocked])
     print("logger.exception records: %s" % [c[:4] for c in r.logged])
     print("observations (id, call, outcome, start, end): %s" % [o[:5] for o in r.observations])
     print("execute: %s   final done()/result(): %s" % (r.exec_info, r.final))
